@@ -387,6 +387,8 @@ def num_family(ctx, configs):
         # point-formula calls whose result coordinates were compared with the transcribed formulas (GroupFormulasBig); differences are NOTEs
         n = sum(1 for ln in open(trace) if '"op":"formula"' in ln.replace(" ", ""))
         ctx.notes["formula_coordinate_events"] = ctx.notes.get("formula_coordinate_events", 0) + n
+        n = sum(1 for ln in open(trace) if '"f":"Barrett"' in ln.replace(" ", ""))
+        ctx.notes["barrett_limb_events"] = ctx.notes.get("barrett_limb_events", 0) + n
     ctx.notes.setdefault("model_notes", 0)
     report_mismatches(ctx, mism)
 
